@@ -26,11 +26,19 @@ pub fn gen_number_expr(t: &mut Tape) -> (Expr, String) {
             (num(v), format!("{}", v))
         }
         2 => {
-            let v = *t.choose(&[0.5, 1.5, 2.5, 0.1, 0.25, 3.7, 3.2, 0.999, 2.0000001]);
-            (num(v), format!("{}", v))
+            // ties, neighbours of ties, and the places where `floor(x + 0.5)` or a cast goes wrong
+            let v = *t.choose(&[
+                0.5, 1.5, 2.5, 0.1, 0.25, 3.7, 3.2, 0.999, 2.0000001, 0.49999999999999994, 0.5000000000000001, 1.4999999999999998, 3.5, 4.5,
+                4503599627370497.0, 4503599627370495.5, 4503599627370496.5, 2251799813685247.5, 8388607.5, 2147483647.5, 2147483648.5, 4294967295.5,
+            ]);
+            if t.chance(1, 3) {
+                (un(UnOp::Minus, num(v)), format!("-{}", v))
+            } else {
+                (num(v), format!("{}", v))
+            }
         }
         3 => {
-            let v = *t.choose(&[9007199254740992.0, 9007199254740991.0, 4294967296.0, 4294967295.0, 1e15, 1e16, 1e21, 1e300, 1e308, 1114111.0, 1114112.0, 55295.0, 55296.0, 57343.0, 57344.0, 18446744073709551616.0, 9223372036854775808.0]);
+            let v = *t.choose(&[9007199254740992.0, 9007199254740991.0, 2147483647.0, 2147483648.0, 65535.0, 65536.0, 127.0, 128.0, 4294967296.0, 4294967295.0, 1e15, 1e16, 1e21, 1e300, 1e308, 1114111.0, 1114112.0, 55295.0, 55296.0, 57343.0, 57344.0, 18446744073709551616.0, 9223372036854775808.0]);
             (num(v), format!("{}", v))
         }
         4 => (bin(BinOp::Multiply, num(0.0), un(UnOp::Minus, num(1.0))), "-0".into()),
@@ -50,7 +58,9 @@ pub fn gen_number_expr(t: &mut Tape) -> (Expr, String) {
 }
 
 pub fn gen_string(t: &mut Tape) -> String {
-    let n = 1 + t.weighted(&[50, 25, 15, 10]);
+    let n = 1 + t.weighted(&[50, 25, 14, 9, 2]);
+    // now and then a long one (40-120 characters, mostly multi-byte): fixed-size buffers, truncated messages
+    let n = if n == 5 { 20 + t.pick(40) } else { n };
     let mut s = String::new();
     for _ in 0..n {
         s.push_str(*t.choose(STR_ATOMS));
